@@ -31,6 +31,9 @@ typedef struct mrdv { mclosure *closure; } mrdv;
 #define UPV_ASSIGN(lhs, rhs) (*(lhs) = *(rhs), (lhs))
 static inline ivec ivec_new(void) { ivec v; v.n = 0; return v; }
 static inline void ivec_push_back(ivec *v, int *x) { M_ASSERT(v->n < SMAX, "captured values fit"); if (v->n < SMAX) v->d[v->n++] = *x; }
+static inline ivec ivec_sized(unsigned long n) { ivec v; M_ASSERT(n <= SMAX, "captured values fit"); v.n = n <= SMAX ? n : SMAX; for (unsigned i = 0; i < SMAX; ++i) v.d[i] = 0; return v; }
+static inline int *ivec_at(ivec *v, unsigned long i) { M_ASSERT(i < v->n, "operator[] within size()"); return &v->d[i < SMAX ? i : 0]; }
+#define IVEC_SIZE(v) ((unsigned long)(v)->n)
 static inline int mstack_pop(mstack *s)
 {
   if (s->n == 0) { verif_raised = 2; return 0; }   /* stack::need throws */
